@@ -15,7 +15,9 @@ cStr == [tt |-> "STRING", c |-> "String"]
 cFoo == [tt |-> "OBJECT", c |-> "Foo"]
 cBar == [tt |-> "OBJECT", c |-> "Bar"]
 
-ParamTys == {One(cInt), One(cStr), Un({cInt, cStr}), AnyT}
+cUnt == [tt |-> "UNTYPED", c |-> "untyped"]
+\* (a union with an Untyped member accepts every argument, like Untyped alone)
+ParamTys == {One(cInt), One(cStr), Un({cInt, cStr}), AnyT, Un({cInt, cUnt})}
             \cup (IF Rich THEN {One(cFoo), Un({cInt, cFoo}), Un({cInt, cStr, cFoo})} ELSE {})
 ArgTys   == {One(cInt), One(cStr), Un({cInt, cStr}), One(cFoo)}
             \cup (IF Rich THEN {One(cBar), Un({cInt, cBar}), Un({cStr, cFoo})} ELSE {})
